@@ -12,7 +12,7 @@ from ..common import Result, sut, SutRaised, MonitorAlarm, digest
 from ..taps import RandomTap, installed
 
 ID = "C20"
-RULE = ("histories of add/remove/remove-absent/add-present/draw/contains/len/iterate over universes of 1..9 "
+RULE = ("histories of add/remove/remove-absent/add-present/draw/contains/len/iterate over universes of 1..9 (15% of int/str universes: 17..70) "
         "hashable elements (ints, sorted edge tuples, strings, equal-but-differently-typed values), op mix biased "
         "to last-inserted / first-slot / only-element removals and drain-to-empty-then-refill; a case is one whole "
         "history; non-trivial = it contains >=1 middle-slot removal and >=1 removal to empty; distinct = SHA-1 of "
@@ -39,10 +39,12 @@ def gen_cases(tier, seed):
 
 
 def _universe(rng):
-    kind = rng.choice(["int", "edge", "str", "mixed", "collide"])
+    kind = rng.choice(["int", "edge", "str", "mixed", "collide", "int", "edge"])
     n = rng.randint(1, 9)
+    if kind in ("int", "str") and rng.random() < 0.15:
+        n = rng.randint(17, 70)          # beyond one small hash table / beyond 32 and 64 slots
     if kind == "int":
-        u = rng.sample(range(-5, 40), n)
+        u = rng.sample(range(-5, 40 if n < 17 else 400), n)
     elif kind == "edge":
         u = list({tuple(sorted((rng.randrange(6), rng.randrange(6, 12)))) for _ in range(n)})
     elif kind == "str":
@@ -57,7 +59,7 @@ def _universe(rng):
 def _gen_ops(rng, u):
     ops = []
     model_order = []  # insertion order model only used to *aim* ops; not an oracle
-    L = rng.randint(5, 60)
+    L = rng.randint(5, 60) if len(u) < 17 else rng.randint(60, 260)
     style = rng.choice(["mixed", "drain", "lastfirst", "churn"])
     while len(ops) < L:
         present = list(model_order)
